@@ -161,21 +161,26 @@ CHECKS = {
 PENDING = {}
 
 EXTRA = {
-    "C01": " Answers are also read through engine.get_value/to_python like a consumer. Further families: predicates of 3-4 clauses whose heads reuse variable names in different positions and nestings, every .prolog file of the repository (read with the repository's own parser) incl. the README query, programs using the grammar's operator syntax, and a 'decorated' rendering (comments, directives, tabs, CRLF) that must not change any answer.",
-    "C02": " The vocabulary includes the zero-argument compound f(); after the three runs of each start state every variable is unified with a new atom to detect state left behind by an undone unification (path compression, caches); get_value is read at every yield.",
-    "C03": " Also: every raise point of the projection function of evaluate_bounded, validated against spec/EvalBounded.tla.",
-    "C04": " One-engine scenarios include non-ground dynamic facts used by two suspended queries at once; a free-running two-thread stress run over facts with repeated variables compares each thread with the prediction for its engine alone.",
-    "C05": " A further family of seeded random bodies of 7-15 nodes over generators and tests on SHARED variables (so that a condition's outcome differs between entries of a construct) is checked against the machine; spec/Codegen.tla's intermediate code is compared with the real compile_body's on every enumerated single-clause instance (drift report in the evidence).",
-    "C06": " A further family of seeded random bodies of 7-15 nodes over generators and tests on SHARED variables (nested if-then-else/negation inside conditions, re-entered by generator goals) is checked against the machine; Codegen drift report as in C05.",
-    "C07": " Also several database operations inside one clause body between two answers of an enumeration (the C14 body family).",
-    "C09": " Templates with variables only below the top level, goals whose clause ends in a cut (yield True), goals defined by rules.",
-    "C11": " Also: head names with trailing/leading line breaks and other separators; constructs that emit little or no code followed (and preceded) by clauses at the edge of Python's nesting limit.",
-    "C12": " Also: the same hostile texts compiled with every debug option on (comments + code, as yldpc -d writes them).",
-    "C14": " TLC also checks the temporal property Termination under weak fairness and NeverOutOfFuel on the body family (the update loops terminate in the specification itself).",
-    "C16": " Also terms containing two literals whose printed forms coincide ('f(a)' next to f(a), atom x1 next to `_`, 'X_' next to variable X).",
-    "C17": " Also nested use: a projection function that itself calls evaluate_bounded on the same engine (inner and outer trace validated).",
-    "C18": " The corpus contains compilations that raise at different stages (syntax, visitor, expression generation, generator limits) so that later programs are compiled after failed ones.",
-    "C20": " Exceptions of ordinary types (TypeError, ValueError, KeyError, RuntimeError) raised inside the predicate body must reach the consumer as the same object.",
+    "C01": " Answers are also read through engine.get_value/to_python like a consumer. Further families: predicates of 3-4 clauses whose heads reuse variable names in different positions and nestings, every .prolog file of the repository (read with the repository's own parser) incl. the README query, programs using the grammar's operator syntax, and a 'decorated' rendering (comments, directives, tabs, CRLF) that must not change any answer. Code->spec as well: the repository's 61 tests are run with every public API call recorded by a pytest plugin (no change to the repository) and each trace is decided by spec/YP.tla. Scale cases (arity 300, 300 zero-argument goals per file, chains of 80 variable links, call/12), once-only variables written `_` next to variables spelled like generated names, terms that print alike, predicates named like engine keys or control words; a CompilerLimitError for clauses far below the documented limits is a violation.",
+    "C02": " The vocabulary includes the zero-argument compound f(); after the three runs of each start state every variable is unified with a new atom to detect state left behind by an undone unification (path compression, caches); get_value is read at every yield. Compounds named '.' with other arities; arity above 256; unifications created early and advanced while another one is at its answer.",
+    "C03": " Also: every raise point of the projection function of evaluate_bounded, validated against spec/EvalBounded.tla. After every replayed step: answers of suspended queries unchanged (live), values returned by ended queries unchanged (frozen), recursion limit unchanged. Python tuples/named tuples/bytes as constants under DEBUG logging; BaseException kinds raised by the consumer; every start state of spec/UnifyGen.tla.",
+    "C04": " One-engine scenarios include non-ground dynamic facts used by two suspended queries at once; a free-running two-thread stress run over facts with repeated variables compares each thread with the prediction for its engine alone. One script above 32 KiB in both engines; one fact of several hundred nodes under three queries; loads that fail under the interpreter's default limit; two different scripts with equal name, length and CRC-32.",
+    "C05": " A further family of seeded random bodies of 7-15 nodes over generators and tests on SHARED variables (so that a condition's outcome differs between entries of a construct) is checked against the machine; spec/Codegen.tla's intermediate code is compared with the real compile_body's on every enumerated single-clause instance (drift report in the evidence). Predicates of 300 clauses with cuts; several hundred cut-abandoned goals followed by evaluate_bounded; scope of a cut across arities, API-asserted facts, Python predicates and chained definitions.",
+    "C06": " A further family of seeded random bodies of 7-15 nodes over generators and tests on SHARED variables (nested if-then-else/negation inside conditions, re-entered by generator goals) is checked against the machine; Codegen drift report as in C05. All 1524 combinations of a small inner construct re-entered per answer of a generator inside an outer construct; predicates with twenty and more constructs; print-alike terms as goals; user predicates named `not`.",
+    "C07": " Also several database operations inside one clause body between two answers of an enumeration (the C14 body family). Integers above the small-int cache; 40-1100 facts under one key with suspended enumeration/retract and outside updates; clear() while a query is suspended (now specified); a reserved API name as a fact key.",
+    "C09": " Templates with variables only below the top level, goals whose clause ends in a cut (yield True), goals defined by rules. call/N up to N=12; findall over goals needing hundreds of frames; the two empty-list objects before and after clear(); chained definitions with cuts through call/findall/once.",
+    "C11": " Also: head names with trailing/leading line breaks and other separators; constructs that emit little or no code followed (and preceded) by clauses at the edge of Python's nesting limit. Numerals around CPython's 4300-digit limit; heads named like the engine key of a Python predicate registered before loading.",
+    "C12": " Also: the same hostile texts compiled with every debug option on (comments + code, as yldpc -d writes them). The output written to a file and loaded through load_script_from_file must be the same program (PEP 263 declarations and UTF-7 escapes inside atoms under each debug option).",
+    "C14": " TLC also checks the temporal property Termination under weak fairness and NeverOutOfFuel on the body family (the update loops terminate in the specification itself). The facts-only entry point match_dynamic as query route; name atoms kept across clear(); tables of 40-1100 facts (1100: thorough tier; API steps assertn/rest).",
+    "C16": " Also terms containing two literals whose printed forms coincide ('f(a)' next to f(a), atom x1 next to `_`, 'X_' next to variable X). 9000 other atom names in the engine between two reads of a literal's atom.",
+    "C17": " Also nested use: a projection function that itself calls evaluate_bounded on the same engine (inner and outer trace validated). 70 000 answers (results carried as a count, lemma ResultIsCounted); projection exceptions that evaluate_bounded swallows by design (RuntimeError, StopIteration) and those that are no Exception.",
+    "C18": " The corpus contains compilations that raise at different stages (syntax, visitor, expression generation, generator limits) so that later programs are compiled after failed ones. Lists with more than a hundred variable occurrences; sources that differ only in terms that print alike.",
+    "C08": " Scripts edited by hand (module-level constants): a load that raises must leave the engine unchanged; look-alike (NFKC) names; names such as __aux, nat_1 next to a Python predicate nat/1; callable objects that are falsy.",
+    "C10": " Every string also compiled with all debug options on; foreign bracket pairs (/* */, (* *), { }, quotes) around stretches and inside quoted atoms; the file route keeps size and modification time.",
+    "C13": " Values returned by an abandoned use stay fixed when the fact is used again; two uses after a renaming aborted inside evaluate_bounded; variables created before clear() asserted with variables created after it.",
+    "C15": " Chains of 80 variable links; deep answers collected by hand and through evaluate_bounded, then the same Variable objects used again; list cells with non-list tails.",
+    "C19": " 400 redundant parentheses; 1100 sources under a 1024 open-files limit; a 128 KiB source with two-byte characters astride the 64 KiB boundaries through standard input; print-alike terms under every flag set.",
+    "C20": " Exceptions of ordinary types (TypeError, ValueError, KeyError, RuntimeError) raised inside the predicate body must reach the consumer as the same object. Python predicates registered as plain function, functools.wraps-decorated function, bound method, functools.partial, callable object (also a falsy one); TypeError with CPython's arity-mismatch wording.",
 }
 
 
